@@ -306,8 +306,8 @@ func rxGroupsOf(pattern string) (int, bool) {
 
 // C01: every entry point is total (panic-freedom skeleton).
 func C01(p *core.Program, r *core.Report) {
-	r.Explanation = "Necessary conditions of `never panics, returns error or a div`, decided on every path of the module code reachable from the entry points. T1 (nil links): a *html.Node obtained from a link field (Parent/FirstChild/LastChild/PrevSibling/NextSibling), from a function that may return nil, or from a map lookup may only be dereferenced (field access, or passed to a callee that dereferences that parameter without its own test - computed as interprocedural summaries over the module, go-shiori/dom and the html.Node methods) where a nil test of that value excludes nil (guard-cut: with all `v != nil` edges removed the dereference must be unreachable); the remaining sites are reviewed exceptions naming the DOM invariant. T2 (cross-object bounds): a string/slice may be sliced at an offset that is the length of ANOTHER value only under a case-sensitive HasPrefix of exactly these two values or a length comparison. T3 (partial operations): every constant index, single-result type assertion and integer division is guarded by a length/kind/zero test of the same value, is structurally safe (strings.Split()[0], full regexp submatches), or reviewed. T4: start/end placeholders are balanced (the retainer pops one start per end; shared with C07). T5: Apply returns an error or a Result whose Node was set to a fresh div, on every path. T6: module code starts no goroutine (a fault in one could not be recovered by the caller). T7 (never loops): every loop of reachable module code has a recognised variant - an exhausted iterator, an integer counter moving towards a bound that cannot run away (including delete-and-stay loops and steps of 1 + a non-negative counter field), or a node cursor replaced by a node one or more links away in a single direction of a finite tree. T8: every recursive call passes a strict descendant of the node it was given (one reviewed document-order walk in the page-number finder)."
-	r.NotCovered = "termination beyond the loop/recursion variants of T7/T8 (third-party code, stack depth on very deep documents), relational index arithmetic on offsets stored in struct fields (pagination/pattern: not claimed), nil maps and nil non-Node pointers, panics inside third-party code and the standard library, memory exhaustion."
+	r.Explanation = "Necessary conditions of `never panics, returns error or a div`, decided on every path of the module code reachable from the entry points. T1 (nil links): a *html.Node obtained from a link field (Parent/FirstChild/LastChild/PrevSibling/NextSibling), from a function that may return nil, or from a map lookup may only be dereferenced (field access, or passed to a callee that dereferences that parameter without its own test - computed as interprocedural summaries over the module, go-shiori/dom and the html.Node methods) where a nil test of that value excludes nil (guard-cut: with all `v != nil` edges removed the dereference must be unreachable); the remaining sites are reviewed exceptions naming the DOM invariant. T2 (cross-object bounds): a string/slice may be sliced at an offset that is the length of ANOTHER value only under a case-sensitive HasPrefix of exactly these two values or a length comparison. T3 (partial operations): every constant index, single-result type assertion and integer division is guarded by a length/kind/zero test of the same value, is structurally safe (strings.Split()[0], full regexp submatches), or reviewed. T4: start/end placeholders are balanced (the retainer pops one start per end; shared with C07). T5: Apply returns an error or a Result whose Node was set to a fresh div, on every path. T6: module code starts no goroutine (a fault in one could not be recovered by the caller). T7 (never loops): every loop of reachable module code has a recognised variant - an exhausted iterator, an integer counter moving towards a bound that cannot run away (including delete-and-stay loops and steps of 1 + a non-negative counter field), or a node cursor replaced by a node one or more links away in a single direction of a finite tree. T9 (nil records): a pointer to one of the module's own record types that a module function may answer as nil (explicit nil, or the answer of another such function; after expansion of helpers: a merge with a nil edge) is dereferenced only where a nil test of that value excludes nil. T8: every recursive call passes a strict descendant of the node it was given (one reviewed document-order walk in the page-number finder)."
+	r.NotCovered = "termination beyond the loop/recursion variants of T7/T8 (third-party code, stack depth on very deep documents), relational index arithmetic on offsets stored in struct fields (pagination/pattern: not claimed), nil maps, nil pointers other than nodes and the module's record types (T9), record pointers paired with an error/ok result, panics inside third-party code and the standard library, memory exhaustion."
 
 	reach := p.ReachableFrom(p.EntryPoints()...)
 	// the units of analysis: every reachable module function that is not an unexported helper,
@@ -391,6 +391,152 @@ func C01(p *core.Program, r *core.Report) {
 	}
 	if f := p.Func(core.ModPath + "/internal/domutil.GetParentElement"); f != nil {
 		r.Add("T1", "sanity: GetParentElement may return nil", p.Pos(f.Pos()), nf.mayNil[f], "")
+	}
+
+	// ---- T9: pointers to the module's own record types. A module function that hands back such
+	// a pointer may answer nil on some path (explicitly, or by passing on the answer of another
+	// such function); its callers - with unexported helpers expanded, the nil answer is a merge
+	// with a nil edge in the unit - dereference the value only where a nil test of that value
+	// excludes nil (same guard-cut as T1). Functions that pair the pointer with an error or an
+	// ok flag are not covered (the pairing, not the pointer, is what callers test).
+	{
+		isRecPtr := func(t types.Type) bool {
+			pt, ok := t.Underlying().(*types.Pointer)
+			if !ok || isNodePtr(t) {
+				return false
+			}
+			n := core.NamedOf(pt.Elem())
+			if n == nil || n.Obj().Pkg() == nil || !core.IsModPkg(n.Obj().Pkg().Path()) {
+				return false
+			}
+			_, isStruct := n.Underlying().(*types.Struct)
+			return isStruct
+		}
+		mayNilRec := map[*ssa.Function]bool{}
+		var valueMayBeNilRec func(v ssa.Value, seen map[ssa.Value]bool) bool
+		valueMayBeNilRec = func(v ssa.Value, seen map[ssa.Value]bool) bool {
+			if seen[v] {
+				return false
+			}
+			seen[v] = true
+			switch x := v.(type) {
+			case *ssa.Const:
+				return x.Value == nil
+			case *ssa.Phi:
+				for i, e := range x.Edges {
+					if edgeImpliesNonNil(x.Block().Preds[i], x.Block(), e) {
+						continue
+					}
+					// the merged value was tested before: the predecessor is only reached with e != nil
+					if _, isC := e.(*ssa.Const); !isC && x.Parent() != nil && !core.ReachableBlocks(x.Parent(), nonNilCut(x.Parent(), e))[x.Block().Preds[i]] {
+						continue
+					}
+					if valueMayBeNilRec(e, seen) {
+						return true
+					}
+				}
+			case *ssa.Call:
+				if f := x.Call.StaticCallee(); f != nil {
+					return mayNilRec[p.Original(f)]
+				}
+			}
+			return false
+		}
+		mods := p.ModFunctions(false)
+		for changed := true; changed; {
+			changed = false
+			for _, f := range mods {
+				if mayNilRec[f] || f.Signature.Results().Len() != 1 || !isRecPtr(f.Signature.Results().At(0).Type()) {
+					continue
+				}
+				for _, ret := range core.Returns(f) {
+					if valueMayBeNilRec(ret.Results[0], map[ssa.Value]bool{}) {
+						mayNilRec[f] = true
+						changed = true
+						break
+					}
+				}
+			}
+		}
+		var names []string
+		for f := range mayNilRec {
+			names = append(names, core.ShortKey(f))
+		}
+		sort.Strings(names)
+		r.Stats["functions_that_may_return_nil_record"] = names
+		nT9 := 0
+		for _, fn := range fns {
+			seenKey := map[string]bool{}
+			for _, b := range fn.Blocks {
+				for _, in := range b.Instrs {
+					v, ok := in.(ssa.Value)
+					if !ok || !isRecPtr(v.Type()) {
+						continue
+					}
+					switch v.(type) {
+					case *ssa.Phi, *ssa.Call:
+					default:
+						continue
+					}
+					if !valueMayBeNilRec(v, map[ssa.Value]bool{}) || v.Referrers() == nil {
+						continue
+					}
+					cut := nonNilCut(fn, v)
+					// a nil edge of a merge is only taken under the condition that selects it
+					// (`if len(list) == 0 { return nil }` of an expanded helper): where the caller
+					// decided the same condition the other way before (`len(list) != 0 && last().x`),
+					// that edge is infeasible. Edges that contradict the guard of every nil edge are
+					// removed as well; if no nil edge stays reachable the value is not nil here.
+					if ph, isPhi := v.(*ssa.Phi); isPhi {
+						feasible := false
+						extra := core.EdgeSet{}
+						for i, e := range ph.Edges {
+							if k, isC := e.(*ssa.Const); !isC || k.Value != nil {
+								feasible = feasible || valueMayBeNilRec(e, map[ssa.Value]bool{})
+								continue
+							}
+							contra := contradictingEdges(p, fn, ph.Block().Preds[i], ph.Block())
+							if contra == nil {
+								feasible = true
+								continue
+							}
+							if core.ReachableBlocks(fn, contra)[ph.Block().Preds[i]] {
+								feasible = true
+							}
+							for ed := range contra {
+								extra[ed] = true
+							}
+						}
+						if !feasible {
+							continue
+						}
+						if nNil := countNilEdges(ph); nNil == 1 {
+							cut = core.Union(cut, extra)
+						}
+					}
+					for _, ref := range *v.Referrers() {
+						deref := false
+						switch x := ref.(type) {
+						case *ssa.FieldAddr:
+							deref = x.X == v
+						case *ssa.UnOp:
+							deref = x.Op == token.MUL && x.X == v
+						}
+						if !deref {
+							continue
+						}
+						nT9++
+						key := fmt.Sprintf("%s: %s may be nil", unitName(fn), shortVal(c.Of(v)))
+						if seenKey[key] || !core.InstrReachable(fn, cut, ref) {
+							continue
+						}
+						seenKey[key] = true
+						r.Add("T9", key, p.Pos(ref.Pos()), false, "dereferenced (field access or copy) where no nil test of the value excludes nil")
+					}
+				}
+			}
+		}
+		r.Add("T9", "dereferences of maybe-nil record pointers examined", "", nT9 >= 3, fmt.Sprintf("%d dereferences in %d units; %d module functions may answer nil", nT9, len(fns), len(mayNilRec)))
 	}
 
 	// ---- T2
@@ -746,4 +892,120 @@ func strictDescendant(v ssa.Value, param *ssa.Parameter, seen map[ssa.Value]bool
 		return false
 	}
 	return rec(v, true)
+}
+
+func countNilEdges(ph *ssa.Phi) int {
+	n := 0
+	for _, e := range ph.Edges {
+		if k, ok := e.(*ssa.Const); ok && k.Value == nil {
+			n++
+		}
+	}
+	return n
+}
+
+// contradictingEdges: the edge pred->succ is taken under the branch condition that ends the
+// nearest block above pred with a conditional branch (through jump-only single-predecessor
+// blocks). The result is the set of all OTHER conditional edges of fn that decide the same
+// canonical condition the opposite way with nothing in between that could change it (no store,
+// map update or call on any block between the two tests). nil if the edge has no such guard.
+func contradictingEdges(p *core.Program, fn *ssa.Function, pred, succ *ssa.BasicBlock) core.EdgeSet {
+	c := core.NewCanon(p)
+	b, to := pred, succ
+	for hops := 0; hops < 6; hops++ {
+		if len(b.Instrs) == 0 {
+			return nil
+		}
+		if ifi, ok := b.Instrs[len(b.Instrs)-1].(*ssa.If); ok {
+			atom, whenTrue := c.CondAtom(ifi.Cond)
+			if atom == "" {
+				return nil
+			}
+			k := 0
+			if b.Succs[1] == to {
+				k = 1
+			}
+			val := (k == 0) == whenTrue // value of the atom on this edge
+			out := core.EdgeSet{}
+			for _, b2 := range fn.Blocks {
+				if b2 == b || len(b2.Instrs) == 0 {
+					continue
+				}
+				if2, ok := b2.Instrs[len(b2.Instrs)-1].(*ssa.If)
+				if !ok {
+					continue
+				}
+				a2, wt2 := c.CondAtom(if2.Cond)
+				if a2 != atom || !pureBetween(b2, b) {
+					continue
+				}
+				// the edge of b2 on which the atom has the opposite value
+				for k2 := 0; k2 < 2; k2++ {
+					if ((k2 == 0) == wt2) != val {
+						out[core.Edge{From: b2, K: k2}] = true
+					}
+				}
+			}
+			if len(out) == 0 {
+				return nil
+			}
+			return out
+		}
+		if len(b.Preds) != 1 || len(b.Instrs) != 1 {
+			return nil
+		}
+		b, to = b.Preds[0], b
+	}
+	return nil
+}
+
+// pureBetween: no block on a path from a (exclusive of its own body up to the branch) to b
+// contains a store, a map update or a call other than len/cap; loads and pure operators only.
+func pureBetween(a, b *ssa.BasicBlock) bool {
+	// blocks reachable from a that can reach b
+	fwd := map[*ssa.BasicBlock]bool{}
+	var f func(x *ssa.BasicBlock)
+	f = func(x *ssa.BasicBlock) {
+		if fwd[x] {
+			return
+		}
+		fwd[x] = true
+		if x == b {
+			return
+		}
+		for _, s := range x.Succs {
+			f(s)
+		}
+	}
+	for _, s := range a.Succs {
+		f(s)
+	}
+	if !fwd[b] {
+		return false
+	}
+	bwd := map[*ssa.BasicBlock]bool{}
+	var g func(x *ssa.BasicBlock)
+	g = func(x *ssa.BasicBlock) {
+		if bwd[x] || !fwd[x] {
+			return
+		}
+		bwd[x] = true
+		for _, pr := range x.Preds {
+			g(pr)
+		}
+	}
+	g(b)
+	for x := range bwd {
+		for _, in := range x.Instrs {
+			switch y := in.(type) {
+			case *ssa.Store, *ssa.MapUpdate, *ssa.Send, *ssa.Go, *ssa.Defer:
+				return false
+			case *ssa.Call:
+				if bi, ok := y.Call.Value.(*ssa.Builtin); !ok || (bi.Name() != "len" && bi.Name() != "cap") {
+					return false
+				}
+			}
+		}
+	}
+	return true
 }
